@@ -527,7 +527,8 @@ class Check:
             if d is None:
                 if mn in renames.table():
                     out[f"{mn}:{q}"] = "not in the reference tree (new or renamed function)"
-            elif d[0] >= self.RESTRUCTURE_THRESHOLD:
+            elif d[0] >= self.RESTRUCTURE_THRESHOLD or (d[0] >= 1 and d[1] and d[0] / d[1] >= float(os.environ.get("VERIF_RESTRUCTURE_RATIO", "0.5"))):
+                # a small function is rewritten when half of its statements differ: the absolute threshold alone never triggers there
                 out[f"{mn}:{q}"] = f"{d[0]} of {d[1]} statements differ from the reference tree"
         return out
 
